@@ -53,3 +53,9 @@ Proof. exact (main_step_after_bg code_params code_good). Qed.
 Example C20_example :
   results (run code_params [TMain; TBg; TBg; TMain; TMain] (init true 2)) = [K; K].
 Proof. vm_compute. reflexivity. Qed.
+
+(* The schedules above start with the publication of a launched command, then the queries: that is
+   the order of the caller too (src/main.rs run_app publishes before it builds the Config, which makes
+   the first query) — read from the source on every run. *)
+Theorem C20_publication_precedes_first_query : publishes_before_first_query = true.
+Proof. reflexivity. Qed.
